@@ -99,6 +99,8 @@ def _execute_guarded(prop, trace, rng):
     # CPU time of this process, not wall time: waiting (for the reference server, for a loaded
     # machine) never fires it, a loop inside the code under test does
     limit = getattr(prop, "RUN_DEADLINE_S", 10.0)
+    if trace.get("long"):
+        limit *= 6          # long runs use up to a second of CPU themselves
     use_alarm = getattr(prop, "ENGINE", "") != "threadsim"
     if use_alarm:
         signal.signal(signal.SIGPROF, _on_alarm)
